@@ -595,7 +595,7 @@ func c07(c *Ctx) {
 		var rets []ssa.Instruction
 		for _, b := range hf.Blocks {
 			for _, in := range b.Instrs {
-				if ret, ok := an.AsReturn(in); ok && len(ret.Results) == 2 && !an.MayBeNilConst(an.RetVal(ret, 0)) {
+				if ret, ok := an.AsReturn(in); ok && len(ret.Results) == 2 && !an.MayReturnNil(ret, 0) {
 					rets = append(rets, ret)
 				}
 			}
